@@ -126,6 +126,15 @@ check("C07", "tool-sim", "exploration",
       "Structure-aimed sampling, not coverage-guided fuzzing; deep multi-field forgeries are out of reach.",
       "deterministic simulation: stored-byte fault injection on input streams with crash/hang/validity oracle", "DESIGN.md 5/C07")
 
+check("C05", "tool-sim", "exploration",
+      "Valid images (store-mode proxy => uncompressed metadata, and real compressors) are damaged through the independent decoder's field "
+      "map: every superblock field, table pointer, inode field, block size word, directory header/entry, index entry, table entry gets "
+      "boundary / off-by-one / high-bit / random values (1..3 per image), plus truncation, random flips and transient variants delivered "
+      "by the pread/read seam (2nd read of a byte differs). rdsquashfs -l/-s/-c/-x/-d/-u, sqfs2tar and sqfsdiff run in the sanitized "
+      "build under a CPU limit; anything but an orderly exit is a violation.",
+      "Structure-aimed sampling, not coverage-guided fuzzing; consistent multi-field forgeries are out of reach.",
+      "deterministic simulation: stored-byte fault injection aimed by an independent field map, crash/hang oracle", "DESIGN.md 5/C05")
+
 PENDING = ["C01","C02","C03","C04","C05","C06","C07","C08","C10","C11","C12","C13","C14","C15","C19"]
 NA_REASONS = {
  "C16": "pure relation between two text transducers (describe printer, pack-file tokenizer); no schedule, clock, fault, crash point or history in the statement - deciding it is input enumeration, which deterministic simulation does not do (DESIGN.md section 0)",
@@ -149,7 +158,7 @@ def main():
             "add_only": True,
         },
         "engines": [
-            {"name": "tool-sim", "path": "simos/ + py/pipelines.py", "serves_properties": ["C01", "C02", "C03", "C04", "C07", "C08", "C15", "C11", "C12", "C13", "C14"], "kind_free_text": "each tool's real sources linked with simos under --wrap; one process per simulated run"},
+            {"name": "tool-sim", "path": "simos/ + py/pipelines.py", "serves_properties": ["C01", "C02", "C03", "C04", "C05", "C07", "C08", "C15", "C11", "C12", "C13", "C14"], "kind_free_text": "each tool's real sources linked with simos under --wrap; one process per simulated run"},
             {"name": "pool-sim", "path": "scn/pool.c", "serves_properties": ["C09"], "kind_free_text": "real threadpool.c under the simos scheduler, many runs per process"},
         ],
         "checks": [CHECKS[k] for k in sorted(CHECKS)],
